@@ -195,7 +195,7 @@ def convert(rec):
             if d != 0 and (hop[i] == 0 or abs(d - round(d)) < 1e-3):
                 raise Skip("distance too close to a whole metre")
         if fn == "loc":
-            return mk(lon=lo, lat=la, hop=hop, p={"bbox": ints(bb, s), "rmax": rat(a.get("range_max"))})
+            return mk(lon=lo, lat=la, hop=hop, p={"bbox": ints(bb, s), "rmax": rat(a.get("range_max")), "shapes": "same"})
         t = secs(a["tinp"])
         t0 = t[0] if t else 0
         return mk(lon=lo, lat=la, hop=hop, t=[v - t0 for v in t], p={"st": rat(a["suspect_threshold"]), "ft": rat(a["fail_threshold"])})
